@@ -3,11 +3,12 @@ Full product of option subsets x version x align x out; three routes; all CLI
 argument orders for small subsets.  Side catalogues: hostile working
 directories (env), content-root names, special option values (values), every
 long option name as a configuration key (names), int / str forms of the
-meta_version keyword per creator class (kwforms)."""
+meta_version keyword per creator class (kwforms), the routes in a child
+interpreter under every named process environment (penv, mc/envrun.py)."""
 import itertools
 import os
 
-from mc import core, tf, world
+from mc import core, envrun, tf, world
 from mc.ref import bencode
 
 OPTION_VALUES = {
@@ -85,6 +86,41 @@ FLAG = {"announce": "--announce", "web-seed": "--web-seed",
 KW = {"announce": "announce", "web-seed": "url_list", "http-seed": "httpseeds",
       "private": "private", "source": "source", "comment": "comment",
       "piece-length": "piece_length"}
+
+
+# process-environment axis (mc/envrun.py): one option at a time carrying text
+# outside ASCII (UTF-8 in the configuration file, `str` for the flag and
+# keyword routes), plus an all-ASCII control and a configuration file whose
+# only non-ASCII text is a comment line
+PENV_VALUES = {
+    "comment": "Gr\u00fc\u00dfe \u2013 \u65e5\u672c\u8a9e",
+    "source": "Trackh\u00e9r\u00f4",
+    "announce": ["http://t1/a\u00f1nounce", "udp://t2:6969/\u65e5\u672c"],
+    "web-seed": ["http://w1/f\u00efles/"],
+    "http-seed": ["http://h1/s\u00e9ed.php", "http://h2/\u0436"],
+}
+PENV_OUT = "sortie-\u00e9\u97f3.torrent"
+PENV_CFG_COMMENT = "# Gr\u00fc\u00dfe \u2013 \u65e5\u672c\u8a9e"
+_PENV_BODY = r'''
+import json, os
+C = json.loads({blob!r})
+from torrentfile import cli, torrent, utils
+OBS = {{}}
+for key, spec in C["runs"]:
+    memo = utils.filelist_total
+    if hasattr(memo, "cache"):
+        memo.cache.clear()
+    try:
+        if isinstance(spec, dict):
+            cls = torrent.TorrentFile if C["version"] == "1" \
+                else torrent.TorrentAssembler
+            cls(**spec).write()
+        else:
+            cli.execute(spec)
+        OBS[key] = ["ok", None]
+    except BaseException as e:
+        OBS[key] = ["raised:" + type(e).__name__, str(e)[:100]]
+'''
 
 
 def payload(seed):
@@ -183,6 +219,42 @@ def _clean(sandbox, keep):
             os.remove(p)
 
 
+def config_lines(opts, version, align, outarg, style="A"):
+    """The lines of the configuration file that carries `opts` (styles: see
+    `assumptions`)."""
+    lines = ["[config]"]
+    for o, v in opts.items():
+        if v is None:
+            if style == "B" and o == "private":
+                lines.append("private = false")
+            if style == "C" and o in LISTY:
+                lines.append(f"{o} =")     # present but empty
+            continue
+        if o in LISTY:
+            if style == "B" and len(v) == 1:
+                lines.append(f"{o} = {v[0]}")
+            elif style == "C":
+                # entries separated by blank lines, trailing blank line
+                lines.append(f"{o} =")
+                for x in v:
+                    lines += ["    " + x, ""]
+            else:
+                lines.append(f"{o} =")
+                lines += ["    " + x for x in v]
+        elif o == "private":
+            lines.append("private = true" if style == "A"
+                         else "private = True")
+        else:
+            lines.append(f"{o} = {v}")
+    lines.append(f"meta-version = {version}")
+    if align:
+        lines.append("align = true")
+    elif style == "B":
+        lines.append("align = false")
+    lines.append(f"out = {outarg}")
+    return lines
+
+
 class OptionsCheck:
     id = "C20"
 
@@ -239,6 +311,32 @@ class OptionsCheck:
             "CLI orders: every permutation and every content-path position "
             "for subsets of <= 3 flags; canonical, reversed and rotated "
             "orders for larger subsets",
+            "process-environment group (mc/envrun.py): the routes keyword / "
+            "flag / configuration file style A (thorough: style B too) for "
+            "an all-ASCII option set, for each of comment, source, announce, "
+            "web-seed, http-seed carrying text outside ASCII, for an `out` "
+            "file name outside ASCII and for a configuration file whose only "
+            "non-ASCII text is a comment line (thorough: all at once), x "
+            "meta-version 1 / 2 / 3 x EVERY member of envrun.ENVS (terminal "
+            "widths, -O / PYTHONOPTIMIZE=2, ASCII filesystem and locale "
+            "encodings with UTF-8 mode off, POSIX locale, stdout closed / "
+            "full / a file / ascii-only, removed working directory, -W "
+            "error, TORRENTFILE_DEBUG=ON, low recursion limit, RLIMIT_NOFILE "
+            "64, umasks, no HOME, far time zone, small io buffer); one child "
+            "interpreter per (environment, version) runs the sub-catalogue, "
+            "the parent builds the inputs and reads the results.  The "
+            "configuration file holds UTF-8 bytes; the flag and keyword "
+            "values are `str` objects handed to cli.execute / the creator "
+            "class inside the child (how the operating system would decode "
+            "an argv is not part of a route).  Reading: within one "
+            "environment a route that leaves no metafile while another "
+            "route writes one is a disagreement (violation) - the statement "
+            "says the option means the same however it is supplied; all "
+            "routes refusing alike without leaving a file is recorded, not "
+            "judged; two refusals are not compared by the type of their "
+            "exceptions; a metafile left under another name than `out` says "
+            "(in the route's own output directory) is a violation, other "
+            "neighbours are C18's subject",
         ]
         self.rule = (
             "full product of option subsets/values x meta-version x align x "
@@ -254,7 +352,13 @@ class OptionsCheck:
             "out) x route; every long option name of the create sub-parser "
             "as a configuration key against the flag of the same spelling; "
             "int and str forms of the meta_version keyword x creator class "
-            "against each other and against the flag route")
+            "against each other and against the flag route; plus the "
+            "process-environment axis: (ASCII control, each text / list "
+            "option and `out` with text outside ASCII, non-ASCII comment "
+            "line in the configuration file) x meta-version x every named "
+            "process environment of mc/envrun.py, the three routes executed "
+            "in a child interpreter under that environment and judged by "
+            "the same oracle per environment")
 
     def combos(self):
         for vals in itertools.product(*[OPTION_VALUES[o] for o in OPT_ORDER]):
@@ -282,6 +386,9 @@ class OptionsCheck:
                        "tier": tier})
             gs.append({"kind": "content-names", "version": version,
                        "seed": seed, "tier": tier})
+        for env in envrun.ENVS:
+            gs.append({"kind": "penv", "env": env, "seed": seed,
+                       "tier": tier})
         return gs
 
     # routes -----------------------------------------------------------
@@ -348,37 +455,7 @@ class OptionsCheck:
                 tf.execute(argv)
             else:
                 cfg = os.path.join(outdir, "cfg.ini")
-                lines = ["[config]"]
-                for o, v in opts.items():
-                    if v is None:
-                        if style == "B" and o == "private":
-                            lines.append("private = false")
-                        if style == "C" and o in LISTY:
-                            lines.append(f"{o} =")     # present but empty
-                        continue
-                    if o in LISTY:
-                        if style == "B" and len(v) == 1:
-                            lines.append(f"{o} = {v[0]}")
-                        elif style == "C":
-                            # entries separated by blank lines, trailing
-                            # blank line
-                            lines.append(f"{o} =")
-                            for x in v:
-                                lines += ["    " + x, ""]
-                        else:
-                            lines.append(f"{o} =")
-                            lines += ["    " + x for x in v]
-                    elif o == "private":
-                        lines.append("private = true" if style == "A"
-                                     else "private = True")
-                    else:
-                        lines.append(f"{o} = {v}")
-                lines.append(f"meta-version = {version}")
-                if align:
-                    lines.append("align = true")
-                elif style == "B":
-                    lines.append("align = false")
-                lines.append(f"out = {outarg}")
+                lines = config_lines(opts, version, align, outarg, style)
                 if style in "DEF":
                     # the default locations: ./torrentfile.ini, found through
                     # the current directory at the time of the call, then
@@ -960,9 +1037,191 @@ class OptionsCheck:
             _clean(sandbox, keep=("p",))
         return res
 
+    # process environment ------------------------------------------------
+    def penv_cases(self, tier):
+        """(name, class, opts, out file name, extra configuration lines)."""
+        none = {o: None for o in OPT_ORDER}
+        cases = [("ascii", "ascii-values",
+                  {o: OPTION_VALUES[o][-1] for o in OPT_ORDER}, "x.torrent",
+                  [])]
+        for o, v in PENV_VALUES.items():
+            cases.append((o, "non-ascii-value", dict(none, **{o: v}),
+                          "x.torrent", []))
+        cases.append(("out", "non-ascii-value", dict(none, comment="c"),
+                      PENV_OUT, []))
+        cases.append(("config-comment-line", "non-ascii-value",
+                      dict(none, comment="c"), "x.torrent",
+                      [PENV_CFG_COMMENT]))
+        if tier == "thorough":
+            allv = dict({o: OPTION_VALUES[o][-1] for o in OPT_ORDER},
+                        **PENV_VALUES)
+            cases.append(("all", "non-ascii-value", allv, PENV_OUT,
+                          [PENV_CFG_COMMENT]))
+        return cases
+
+    def run_penv(self, g, res, only=None):
+        """The three routes in a child interpreter under each named process
+        environment (mc/envrun.py).  One child per (environment, version)
+        runs the whole sub-catalogue, every case and route in a directory of
+        its own; the parent builds the inputs (configuration files as UTF-8
+        bytes) and reads the results.  Judged per environment: the metafile
+        each route leaves at the `out` path (or none, when the route
+        refuses) must be the same for the three routes and carry every
+        option in its documented field; the flag and the configuration
+        route, both going through the command, must also end the same way;
+        no route may leave a metafile under another name in its output
+        directory.
+        All routes refusing alike (no metafile anywhere) is recorded, not
+        judged."""
+        import json
+        import shutil
+        seed, env, tier = g["seed"], g["env"], g.get("tier", "quick")
+        routes = ["kw", "cli", "config"] + (
+            ["config-B"] if tier == "thorough" else [])
+        for version in ("1", "2", "3"):
+            if only is not None and only["version"] != version:
+                continue
+            sandbox = world.fresh_dir()
+            root = world.materialize(payload(seed), os.path.join(sandbox, "p"))
+            cfgdir = os.path.join(sandbox, "cfg")
+            os.mkdir(cfgdir)
+            runs, plan = [], []
+            for i, (name, cls, opts, outname, extra) in enumerate(
+                    self.penv_cases(tier)):
+                for route in routes:
+                    outdir = os.path.join(sandbox, f"o{i}_{route}")
+                    os.mkdir(outdir)
+                    outarg = os.path.join(outdir, outname)
+                    if route == "kw":
+                        spec = {}
+                        for o, v in opts.items():
+                            if v is not None:
+                                spec[KW[o]] = int(v) if o == "piece-length" \
+                                    else v
+                        spec.update(meta_version=version, outfile=outarg,
+                                    path=root, progress=0)
+                    elif route == "cli":
+                        spec = ["create", root]
+                        for c, _ in chunks_of(opts, version, False):
+                            spec += c
+                        spec += ["-o", outarg, "--prog", "0"]
+                    else:
+                        cfg = os.path.join(cfgdir, f"c{i}_{route}.ini")
+                        lines = config_lines(
+                            opts, version, False, outarg,
+                            route[-1] if "-" in route else "A")
+                        lines[1:1] = extra
+                        with open(cfg, "wb") as f:
+                            f.write(("\n".join(lines) + "\n").encode("utf-8"))
+                        spec = ["create", "--config", "--config-path", cfg,
+                                "--prog", "0", root]
+                    runs.append([f"{name}/{route}", spec])
+                    plan.append((name, route, outdir, outname))
+            blob = json.dumps({"version": version, "runs": runs})
+            rep = envrun.run(env, _PENV_BODY.format(blob=blob), cwd=cfgdir)
+            res.transitions += len(runs)
+            res.evals += len(runs)
+            res.extra["child_interpreters"] += 1
+            if not rep["report"] or not isinstance(rep["obs"], dict) or \
+                    len(rep["obs"]) != len(runs):
+                # the child died before it ran the catalogue: nothing was
+                # observed, so nothing is judged (recorded); the baseline
+                # environment must always report
+                res.outcomes[f"penv:{env}:child-did-not-report"] += 1
+                shutil.rmtree(sandbox, ignore_errors=True)
+                if env == "default":
+                    raise core.InfraError(
+                        "penv child did not report: " + str(rep)[:600])
+                continue
+            got = {}
+            for name, route, outdir, outname in plan:
+                st, msg = rep["obs"][f"{name}/{route}"]
+                expect = os.path.join(outdir, outname)
+                meta = None
+                if os.path.isfile(expect):
+                    with open(expect, "rb") as f:
+                        raw = f.read()
+                    try:
+                        meta = normalise(raw)
+                    except (ValueError, TypeError, AttributeError):
+                        meta = ("metafile-not-bencode", raw[:200])
+                elif st == "ok":
+                    st = "no-metafile-at-out-path"
+                # a METAFILE under another name than `out` says (other
+                # neighbours are C18's subject, not judged here)
+                stray = []
+                for n in sorted(os.listdir(outdir)):
+                    p = os.path.join(outdir, n)
+                    if n == outname or not os.path.isfile(p):
+                        continue
+                    try:
+                        with open(p, "rb") as f:
+                            if b"info" in normalise(f.read()):
+                                stray.append(os.fsencode(n))
+                    except (ValueError, TypeError, AttributeError):
+                        pass
+                got.setdefault(name, {})[route] = (st, meta, stray, msg)
+                res.validated += 1
+            for name, cls, opts, outname, extra in self.penv_cases(tier):
+                res.states += 1
+                check = expected_fields(opts, version, False)
+                outs = got[name]
+                case = {"kind": "penv", "env": env, "version": version,
+                        "name": name, "seed": seed, "tier": tier}
+                ref = outs["kw"]
+                flag = outs["cli"]
+                nviol = 0
+                for route, (st, meta, stray, msg) in outs.items():
+                    probs = []
+                    if isinstance(meta, tuple):
+                        probs.append("metafile-not-bencode")
+                    elif meta is not None:
+                        probs += check(meta)
+                    if stray:
+                        probs.append("metafile-at-another-path")
+                    if st == "no-metafile-at-out-path":
+                        probs.append(st)
+                    if route != "kw":
+                        if meta is None and ref[1] is not None:
+                            probs.append(st)
+                        elif meta is not None and ref[1] is None:
+                            probs.append("writes-where-keyword-route-refuses")
+                        elif meta != ref[1]:
+                            probs.append("differs-from-keyword-route")
+                    # (two refusals that leave nothing are not compared by
+                    # the type of their exceptions)
+                    if route.startswith("config") and not probs and (
+                            meta is not None or flag[1] is not None) and (
+                            st != flag[0] or meta != flag[1]):
+                        probs.append("differs-from-flag-route:" + st)
+                    for pr in dict.fromkeys(probs):
+                        nviol += 1
+                        if only is not None and (
+                                only["name"] != name or
+                                only.get("route") != route):
+                            continue
+                        res.violation(
+                            f"C20|{route}|{pr}|v{version}|{cls}|penv:{env}",
+                            dict(case, route=route),
+                            {"option": name, "status": st, "message": msg,
+                             "keyword-route": ref[0], "flag-route": flag[0],
+                             "stray": stray[:3]})
+                if nviol:
+                    res.outcomes[f"penv:{env}:routes-disagree"] += 1
+                elif all(o[1] is None for o in outs.values()):
+                    res.outcomes[f"penv:{env}:all-routes-refuse:"
+                                 f"{ref[0]}"] += 1
+                else:
+                    res.outcomes[f"penv:{env}:ok"] += 1
+            shutil.rmtree(sandbox, ignore_errors=True)
+        res.sample({"kind": "penv", "env": env})
+        return res
+
     def run_group(self, g):
         res = core.Result()
         seed = g["seed"]
+        if g.get("kind") == "penv":
+            return self.run_penv(g, res)
         if g.get("kind") == "names":
             return self.run_names(g, res)
         if g.get("kind") == "kwforms":
@@ -1052,6 +1311,12 @@ class OptionsCheck:
         return res
 
     def replay(self, case):
+        if case.get("kind") == "penv":
+            res = self.run_penv({"seed": case["seed"], "env": case["env"],
+                                 "tier": case.get("tier", "quick")},
+                                core.Result(), only=case)
+            return [{"sig": v["sig"], "detail": v["detail"]}
+                    for v in res.violations]
         if case.get("kind") == "content-names":
             res = self.run_content_names(
                 {"seed": case["seed"], "version": case["version"]},
